@@ -79,6 +79,9 @@ class Server:
         self.sent.append(m)
 
 
+FULL_SHAPE_FRAMES = [99]
+
+
 def payload(i: int, kind: int) -> Dict[str, Any]:
     """Event payload per the ASGI spec: connect carries nothing, receive carries text+bytes, disconnect code+reason."""
     e = cur()
@@ -86,8 +89,10 @@ def payload(i: int, kind: int) -> Dict[str, Any]:
         # a frame may be EMPTY (legal): fork-decided per frame, recorded for the concrete replay
         # the frame's shape is fork-decided and recorded for the concrete replay: a text or a bytes frame (the other key None, as servers
         # deliver it), empty (legal) or not
-        shape = e.choose(4, f"frameshape{i}")  # 0 text, 1 empty text, 2 bytes, 3 empty bytes
-        e.path_notes.setdefault("empty_frames", {})[i] = shape
+        seen = len(e.path_notes.setdefault("empty_frames", {}))
+        # all four shapes for the first FULL_SHAPE_FRAMES frames of a history, text / empty text for later ones (long thorough histories)
+        shape = e.choose(4 if seen < FULL_SHAPE_FRAMES[0] else 2, f"frameshape{i}")  # 0 text, 1 empty text, 2 bytes, 3 empty bytes
+        e.path_notes["empty_frames"][i] = shape
         if shape == 0:
             return {"text": SStr.fresh(1, f"t{i}_", 0, 0x10FFFF), "bytes": None}
         if shape == 1:
@@ -380,6 +385,7 @@ def job_seq(job) -> report.JobResult:
     eng = Engine(budget_s=job.get("budget", 1200))
     ncalls, nframes, first = job["ncalls"], job["nframes"], job["first"]
     alphabet = job["alphabet"]
+    FULL_SHAPE_FRAMES[0] = 1 if ncalls >= 4 else 99
 
     def fn():
         e = cur()
